@@ -112,9 +112,9 @@ Proof.
   assert (AGR : agree D 0 g o (zlen D)) by (repeat split; assumption).
   assert (E : mp4_rd g o (zlen D) = D).
   { rewrite <- (agree_rd0 _ _ _ _ _ (zlen D) AGR) by lia. apply rd_whole. }
-  unfold splice. rewrite <- E at 2. rewrite rd_is_slice by lia. unfold zslice. replace (o + zlen D - o) with (zlen D) by lia.
-  rewrite <- (ztake_zdrop o g) at 4. f_equal.
-  rewrite <- (ztake_zdrop (zlen D) (zdrop o g)) at 2. f_equal. rewrite zdrop_zdrop by lia. f_equal. lia.
+  remember (zlen D) as n eqn:En. rewrite rd_is_slice in E by lia. unfold zslice in E. replace (o + n - o) with n in E by lia.
+  unfold splice. rewrite <- E. replace (o + n) with (n + o) by lia. rewrite <- zdrop_zdrop by lia.
+  rewrite ztake_zdrop. apply ztake_zdrop.
 Qed.
 
 (* a save whose new region bytes are exactly the bytes already there changes nothing *)
@@ -176,4 +176,24 @@ Proof.
     rewrite Hcb. unfold MP4_MAXPAD in *. rewrite Z.min_r by lia. exact (eq_sym HD). }
   apply (save_identity f' atoms' path' off (zlen D) ilst_data cb Ha' Hp' Hr'); [destruct AG; lia|rewrite HD'; reflexivity|].
   rewrite HD'. exact AG.
+Qed.
+
+(* with the default padding policy (regenerated from mutagen/_tags.py): the second save is byte-identical *)
+Theorem c07_default_second_save f ilst_data f' atoms path it :
+  mp4_wf f = true -> mp4_atoms f = Ok atoms -> mp4_path atoms ILST_PATH = Some path -> mp4_tags_clean atoms = true ->
+  ilst_wellformed ilst_data it -> mp4_height it <= 62 -> ma_name it = N_ilst ->
+  mp4_save f ilst_data mp4_cb_default = Ok f' ->
+  exists off old, mp4_region_of path = Some (off, old) /\
+    (get_default_padding (old - (zlen ilst_data + 8)) (zlen f - (off + old)) + 8 <= 4294967295 ->
+     mp4_save f' ilst_data mp4_cb_default = Ok f').
+Proof.
+  intros Hwf Ha Hp Hc Hit Hih Hin Hs.
+  destruct (c07_second_save_identity f ilst_data mp4_cb_default f' atoms path it Hwf Ha Hp Hc Hit Hih Hin Hs) as (off & old & Hr & H).
+  destruct (c10_offsets_follow_data f ilst_data mp4_cb_default f' atoms path Hwf Ha Hp Hc Hs) as (off' & old' & Hr' & H0 & H8 & Hf & _).
+  rewrite Hr in Hr'. inversion Hr'; subst off' old'.
+  exists off, old. split; [exact Hr|]. intros Hb. cbv zeta in H. unfold mp4_cb_default in *.
+  set (p := old - (zlen ilst_data + 8)) in *. set (s := zlen f - (off + old)) in *.
+  assert (Hs0 : 0 <= s) by (unfold s; lia).
+  pose proof (default_nonneg p s Hs0) as Hn. unfold MP4_MAXPAD in *.
+  rewrite Z.min_r in H by lia. apply H; [lia|lia|]. apply default_idempotent. exact Hs0.
 Qed.
